@@ -177,6 +177,7 @@ type X struct {
 	// cleanup bookkeeping (C10)
 	cleanupSeq int
 	skipping   bool // the program called Skip and the panic is unwinding
+	attempts   int  // action attempts started in this invocation
 }
 
 const (
@@ -453,6 +454,8 @@ func (p Pred) String() string {
 		return fmt.Sprintf("h%%%d<%d", p.M, p.Keep)
 	case "ctr":
 		return fmt.Sprintf("ctr>%d", p.K)
+	case "attempt":
+		return fmt.Sprintf("attempt%%%d==0", p.M)
 	}
 	return p.Typ
 }
@@ -488,6 +491,9 @@ func (p Pred) eval(x *X) bool {
 		return mix(hashStr(x.inv.liveKey()), p.Salt)%p.M < p.Keep
 	case "ctr":
 		return x.counter > p.K
+	case "attempt":
+		// every M-th action attempt of the invocation (skipped-before-draw attempts are replayed, not pruned)
+		return uint64(x.attempts)%p.M == 0
 	}
 	return false
 }
@@ -678,6 +684,7 @@ func (x *X) repeat(s *Step) {
 			// the action-selection draw is logged by rapid as draw "action"
 			x.inv.Draws = append(x.inv.Draws, Draw{Label: "action", Canon: canon(a.Name), GoStr: fmt.Sprintf("%#v", a.Name), Level: x.level})
 			start := len(x.inv.Draws) - 1
+			x.attempts++
 			x.ev("act> %s", a.Name)
 			saved := x.where
 			x.where = "action:" + a.Name
